@@ -216,13 +216,15 @@ func le32(n uint32) string {
 
 func main() {
 	kit.Main("C17", "exploration", func(c *kit.Ctx) {
-		fam := kit.NewIsolatedFamily(c, "decode", 16, 2048, eval)
+		// few workers on purpose: each one pre-faults 72 MiB, and first-touch memory is the
+		// dominating cost on the verification host; the per-case work is tiny
+		fam := kit.NewIsolatedFamily(c, "decode", 6, 2048, eval)
 		if c.Replaying() {
 			return
 		}
 		defer fam.Close()
 		c.Rule("per codec {abridged, intermediate, padded, full}: (a) every byte string of length 0..2 then EOF (quick: length 0..1 and 2-byte strings over a 24-value first byte), also after ReadHeader for strings starting with a header byte; " +
-			"(b) every 4-byte prefix over the byte alphabet {00,01,03,04,08,0b,0c,7f,80,ff}^4 followed by nothing / 64 zero bytes (seqno 0 matches) / (thorough, not abridged) 64 counting bytes; " +
+			"(b) every 4-byte prefix over the byte alphabet {00,01,03,04,08,0b,0c,7f,80,ff}^4 (quick: the two high bytes over {00,01,7f,80,ff}, accepted lengths above 1 MiB thinned to 6 low-byte pairs) followed by nothing / 64 zero bytes (seqno 0 matches) / (thorough, not abridged) 64 counting bytes; " +
 			"(c) full: length n = 0..64 and {2^24-1,2^24,2^24+1,2^31-1,2^31,2^32-1} x seqno {match, mismatch} x body {absent, 4 bytes, exactly n-4, 64 bytes}, also as the second frame after a valid one; " +
 			"(d) abridged: first byte 0..126 x {64, 600 zero bytes} and first byte 127..255 (quick: 7f,80,ef,ff) x 3-byte word count in {0,1,2,126,127,128,0x3fff,0x3fffff,0x400000,0x400001,0x7fffff,0x800000,0xffffff} x {nothing, 64 zero bytes}; " +
 			"(e) every single-byte substitution (all 255 other values, quick: 16 values) at every position of two valid 3-frame streams (payloads 8,12,8 and 8,4,12); " +
@@ -259,12 +261,20 @@ func main() {
 				}
 			}
 			// (b)
+			hiAlpha := alpha
+			if c.Quick() {
+				hiAlpha = []byte{0x00, 0x01, 0x7f, 0x80, 0xff}
+			}
 			for _, b0 := range alpha {
 				for _, b1 := range alpha {
-					for _, b2 := range alpha {
-						for _, b3 := range alpha {
+					for _, b2 := range hiAlpha {
+						for _, b3 := range hiAlpha {
 							if cd == rt.Abridged && b0 >= 0x7f {
 								continue // covered (with all first bytes) by (d)
+							}
+							if n := uint32(b0) | uint32(b1)<<8 | uint32(b2)<<16 | uint32(b3)<<24; c.Quick() && cd != rt.Abridged &&
+								n > 1<<20 && n <= rt.FrameLimit && !((b0 == 0 || b0 == 0x0b || b0 == 0xff) && (b1 == 0 || b1 == 0xff)) {
+								continue // quick: thin out the accepted multi-MiB lengths (each costs a multi-MiB allocation)
 							}
 							h := kit.Hex([]byte{b0, b1, b2, b3})
 							add(W{Codec: cd, Hex: h})
@@ -367,7 +377,7 @@ func main() {
 
 		c.Set("cases_planned", len(ws))
 		var done atomic.Int64
-		kit.Parallel(len(ws), 32, func(i int) {
+		kit.Parallel(len(ws), 12, func(i int) {
 			if c.Expired() {
 				return
 			}
